@@ -12,6 +12,7 @@ import (
 	"net/http/httptest"
 	"strings"
 	"sync"
+	"sync/atomic"
 	"time"
 
 	frugal "github.com/Workiva/frugal/lib/go"
@@ -199,6 +200,9 @@ type Env struct {
 	NatsConn  *nats.Conn // server-side connection
 	stop      []func()
 	HTTPPanic func(interface{}) // called when the HTTP handler panicked
+	// DropAfterHandler, when set to 1, makes the HTTP server process the next request completely and then close the
+	// connection without writing a byte of the response (Rpc!CallDropped); it resets itself
+	DropAfterHandler int32
 }
 
 var natsShared *brokers.Nats
@@ -268,6 +272,16 @@ func (e *Env) serve() error {
 					panic(p)
 				}
 			}()
+			if atomic.CompareAndSwapInt32(&e.DropAfterHandler, 1, 0) {
+				inner(httptest.NewRecorder(), r)
+				if hj, ok := w.(http.Hijacker); ok {
+					if c, _, err := hj.Hijack(); err == nil {
+						c.Close()
+						return
+					}
+				}
+				panic(http.ErrAbortHandler)
+			}
 			inner(w, r)
 		}))
 		e.Addr = ts.URL
